@@ -125,6 +125,11 @@ uint8_t get_reg(struct instr *instrc, struct operand *m, int r) {
       m->reg = NO_BASE;
       instrc->no_base = true;
     }
+    // without a base the displacement is always 32 bits wide: undo the 8-bit
+    // truncation of a small negative displacement
+    if (m->reg == NO_BASE && instrc->mod_disp == MOD8 &&
+        (instrc->mem_offset & NEG8BIT_CHECK))
+      instrc->mem_offset |= ~(uint32_t)MAX_UNSIGNED_8BIT;
     if (m->reg == NO_BASE)
       instrc->mod_disp = 0;
   }
